@@ -67,7 +67,7 @@ let run path =
          | _ -> fail "diff" id "detect model=%s impl=%s input=%s" mdet idet hex)
       end;
       (* decodes *)
-      let framed : (int, res) Hashtbl.t = Hashtbl.create 4 in
+      let framed : (int, res * bool) Hashtbl.t = Hashtbl.create 4 in
       let results = L.map (fun tok ->
         match S.split_on_char '/' tok with
         | v :: ty :: tail :: rest ->
@@ -113,29 +113,25 @@ let run path =
           end;
           (v, t, buf, impl)
         | _ -> failwith ("bad obs " ^ tok)) obs in
-      (* clause local: for every type, all buffers that extend the framed packet give the framed result *)
+      (* clause local: for every type, all buffers that consist of the framed packet plus any tail
+         give the implementation the same result and count (reference: the framed observation when
+         the plan has one, else the first extended one) *)
       (match ext with
        | Some n when n <= ilen ->
          let fr = take n input in
          L.iter (fun (v, t, buf, impl) ->
-           if L.length buf = n then Hashtbl.replace framed t impl) results;
+           if L.length buf = n && take n buf = fr then Hashtbl.replace framed t (impl, true)) results;
          L.iter (fun (v, t, buf, impl) ->
            if L.length buf > n && take n buf = fr then
              match Hashtbl.find_opt framed t with
-             | Some f when f <> impl && impl <> Panic && f <> Panic ->
+             | Some (f, is_framed) when f <> impl && impl <> Panic && f <> Panic ->
+               let what = if is_framed then "framed" else "other-tail" in
                if t = 1 then
-                 fail "propfail" id "local_connect type=1 framed=%s embedded=%s buf=%s" (s_of_res f) (s_of_res impl) (hex_of_bytes buf)
+                 fail "propfail" id "local_connect type=1 %s=%s embedded=%s buf=%s" what (s_of_res f) (s_of_res impl) (hex_of_bytes buf)
                else
-                 fail "propfail" id "local type=%d framed=%s embedded=%s buf=%s" t (s_of_res f) (s_of_res impl) (hex_of_bytes buf)
+                 fail "propfail" id "local type=%d %s=%s embedded=%s buf=%s" t what (s_of_res f) (s_of_res impl) (hex_of_bytes buf)
              | Some _ -> ()
-             | None ->
-               (* no framed observation of this type in the plan: compare with the model on the framed bytes *)
-               let f = model_res (ptype_of_int t) fr in
-               if f <> impl && impl <> Panic then
-                 if t = 1 then
-                   fail "propfail" id "local_connect type=1 framed(model)=%s embedded=%s buf=%s" (s_of_res f) (s_of_res impl) (hex_of_bytes buf)
-                 else
-                   fail "propfail" id "local type=%d framed(model)=%s embedded=%s buf=%s" t (s_of_res f) (s_of_res impl) (hex_of_bytes buf))
+             | None -> Hashtbl.replace framed t (impl, false))
            results
        | _ -> ());
       ignore gen
